@@ -13,7 +13,7 @@ pub const META_C16: Meta = Meta {
     assumptions: &["documents with duplicate pin labels or junk widths/defaults are only checked for totality (the statement does not define them)", "a Testcase whose Label entry is present but empty, or whose dataString is empty, is outside the generated domain"],
     quick_cases: 40000,
     thorough_cases: 800000,
-    floor: 300,
+    floor: 2000,
 };
 
 const LABELS: [&str; 27] = [
